@@ -168,6 +168,7 @@ type TopologicalSortIterator struct {
 	invState []int
 	n        int
 	first    bool
+	done     bool
 }
 
 //TopologicalSorts returns an iterator which iterates over all topological sorts of {0, 1, ... , n-1} according to the partial order less. If less(i,j) == true, then this only iterates over permutations where i appears before j.
@@ -205,6 +206,9 @@ func (iter *TopologicalSortIterator) Next() bool {
 		iter.first = false
 		return true
 	}
+	if iter.done {
+		return false
+	}
 
 	n := iter.n
 	for k := n - 1; k >= 0; k-- {
@@ -230,6 +234,7 @@ func (iter *TopologicalSortIterator) Next() bool {
 		iter.state[k] = k
 		iter.invState[k] = k
 	}
+	iter.done = true
 	return false
 }
 
